@@ -35,6 +35,12 @@ theorem kindFieldless_enum_of_formattable {d : SchemaDoc} (h : FormattableSchema
   simp only [defOk, Bool.and_eq_true, shapeOk, hk, List.isEmpty_iff] at this
   exact this.2.2
 
+theorem kindFieldless_union_of_formattable {d : SchemaDoc} (h : FormattableSchema d) : KindFieldless .union d := by
+  intro x hx hk
+  have := defOk_of_formattable h x hx
+  simp only [defOk, Bool.and_eq_true, shapeOk, hk, List.isEmpty_iff] at this
+  exact this.2.1.2
+
 theorem namesNonEmpty_of_formattable {d : SchemaDoc} (h : FormattableSchema d) : NamesNonEmpty d := by
   intro x hx hn
   have := defOk_of_formattable h x hx
@@ -46,10 +52,12 @@ theorem namesNonEmpty_of_formattable {d : SchemaDoc} (h : FormattableSchema d) :
 structure TreeHyps (sd : SchemaDoc) : Prop where
   scalars : KindFieldless .scalar sd
   enums : KindFieldless .enum sd
+  unions : KindFieldless .union sd
   names : NamesNonEmpty sd
 
 theorem treeHyps_of_formattable {d : SchemaDoc} (h : FormattableSchema d) : TreeHyps d :=
-  ⟨kindFieldless_scalar_of_formattable h, kindFieldless_enum_of_formattable h, namesNonEmpty_of_formattable h⟩
+  ⟨kindFieldless_scalar_of_formattable h, kindFieldless_enum_of_formattable h, kindFieldless_union_of_formattable h,
+   namesNonEmpty_of_formattable h⟩
 
 /-- one parsed source -/
 theorem parsedSchema_treeHyps {L src : Nat} {b : Bool} {inp : Bytes} {d : SchemaDoc} (hv : Utf8.valid inp)
@@ -58,7 +66,7 @@ theorem parsedSchema_treeHyps {L src : Nat} {b : Bool} {inp : Bytes} {d : Schema
 
 theorem treeHyps_empty : TreeHyps SchemaDoc.empty :=
   ⟨fun x hx => by simp [SchemaDoc.empty] at hx, fun x hx => by simp [SchemaDoc.empty] at hx,
-   fun x hx => by simp [SchemaDoc.empty] at hx⟩
+   fun x hx => by simp [SchemaDoc.empty] at hx, fun x hx => by simp [SchemaDoc.empty] at hx⟩
 
 theorem mem_merge {a b : SchemaDoc} {x : Definition} (hx : x ∈ (a.merge b).definitions ++ (a.merge b).extensions) :
     x ∈ a.definitions ++ a.extensions ∨ x ∈ b.definitions ++ b.extensions := by
@@ -72,6 +80,7 @@ theorem mem_merge {a b : SchemaDoc} {x : Definition} (hx : x ∈ (a.merge b).def
 theorem treeHyps_merge {a b : SchemaDoc} (ha : TreeHyps a) (hb : TreeHyps b) : TreeHyps (a.merge b) :=
   ⟨fun x hx => (mem_merge hx).elim (ha.scalars x) (hb.scalars x),
    fun x hx => (mem_merge hx).elim (ha.enums x) (hb.enums x),
+   fun x hx => (mem_merge hx).elim (ha.unions x) (hb.unions x),
    fun x hx => (mem_merge hx).elim (ha.names x) (hb.names x)⟩
 
 theorem treeHyps_foldl (ds : List SchemaDoc) : ∀ acc : SchemaDoc, TreeHyps acc → (∀ d ∈ ds, TreeHyps d) →
